@@ -122,7 +122,9 @@ class PGPSignature(Armorable, ParentRef, PGPObject):
 
     @property
     def embedded(self):
-        return self.parent is not None
+        # what makes a signature an embedded one is the form it is held in (the 0x20 subpacket it arrived in), not
+        # whether the outer signature - a weak reference, which a copy does not carry - is still around
+        return self.parent is not None or self._signature.__class__.__name__ == 'EmbeddedSignature'
 
     @property
     def expires_at(self):
